@@ -258,7 +258,14 @@ func (g *G) extraStmt(d int) []*Node {
 		al := g.FreshName()
 		g.Env.Put(&VarInfo{Name: al, T: TDict, Len: -1, Keys: append([]string(nil), v.Keys...)})
 		k := []string{"x", "y", "z", "hp"}[g.intn(4, "aliasKey")]
-		return []*Node{Set(al, Var(v.Name)), &Node{K: "setattr", S: al, Names: []string{k}, Kids: []*Node{g.intExpr(d - 1)}}}
+		if g.O.SingleKeyDicts {
+			// a second key would make every text that prints the dict depend on Go map order
+			if len(v.Keys) == 0 || !isPlainIdent(v.Keys[0]) {
+				return []*Node{Set(al, Var(v.Name))}
+			}
+			k = v.Keys[0]
+		}
+		return []*Node{Set(al, Var(v.Name)),&Node{K: "setattr", S: al, Names: []string{k}, Kids: []*Node{g.intExpr(d - 1)}}}
 	case 4, 5:
 		// a function put into a container
 		fs := g.Env.OfType(TFunc)
